@@ -20,7 +20,7 @@ CHECKS["C04"] = {
     "rule": "Lengths: every payload length 1..max x 4 methods x {in-place, separate buffer} x {seq<5 (random padding), seq>=5} enumerated; "
             "Random: rapid-drawn (method,key,stream id,seq,closing,len,placement,limit), seq<5 encoded 64 times. Each case: repo round trip, "
             "repo->reference decode, reference->repo decode, byte-for-byte equality with the reference encoding, size<=limit. "
-            "Every case is non-trivial (a full encode/decode differential); distinct = distinct (method,len,seq-class,placement) tuples resp. distinct scenarios.",
+            "Every case is non-trivial (a full encode/decode differential); distinct = distinct (method,len,seq-class,placement) tuples resp. distinct scenarios. OnTheWire: the C03 scenario generator (<=60 ops, closes, reorderings) followed by a Session.Close of one side; every TLS record on every link in both directions is decoded by the reference codec; non-trivial = a session-closing notice and >3 records on the wire.",
     "assumptions": ["the reference codec in /verif/kit/refcodec.go is a faithful transcription of the Cloak v2 frame layout",
                     "x/crypto and crypto/aes primitives are correct"],
     "jobs": [
@@ -98,7 +98,7 @@ CHECKS["C13"] = {
     "technique": "rapid-generated Write/ReadFrom/Close/reset sequences (synctest bubble) plus generated high-contention workloads with real goroutines; oracle = wire tap decoded by the independent reference codec (uniqueness, gap-freedom, write order, closing frame position); thorough tier repeats the stress under -race",
     "level_text": "Every message the sender put on the wire is decoded with the session key by the reference codec; per (direction, stream) the numbers must be pairwise distinct, 0..n-1 when no send failed, payloads in number order must reproduce each writer's bytes with every Write's frames contiguous, and the closing frame must be numbered after all writes completed before Close. Interleavings are explored by sequential generated histories and by 2..16 goroutines (Write, ReadFrom, Close) hammering one stream of an ordered or unordered session on all cores.",
     "level_note": "Concurrent schedules are sampled by contention (plus the race detector in the thorough tier), not enumerated; a race window that needs a specific nanosecond interleaving may be missed.",
-    "rule": "Scenarios: rapid-drawn <=50 ops (write incl. multi-frame, readfrom chunk scripts, close, deliver, reset) over 1..4 streams; non-trivial = >=3 frames on the wire. Stress: 2..16 concurrent writers (Write and ReadFrom) x 20..300 writes each on one stream, optional racing Close, 1..16 concurrent OpenStream; non-trivial = >=2 goroutines on one stream. distinct = distinct scenarios.",
+    "rule": "Scenarios: rapid-drawn <=50 ops (write incl. multi-frame, readfrom chunk scripts, close, deliver, reset) over 1..4 streams; non-trivial = >=3 frames on the wire. Stress: 2..16 concurrent writers (Write and ReadFrom) x 20..300 writes each on one stream, optional racing Close, 1..16 concurrent OpenStream; non-trivial = >=2 goroutines on one stream. distinct = distinct scenarios. Program: NumConn from {0,0,0,1,3}, AEAD method, browser, 1..5 proxied connections starting 0..30 ms apart with 1..4 chunks from {1,100,3000,16132,40000} bytes through ck-client's main(); non-trivial = >=2 proxied connections and >=2 client frames decoded.",
     "assumptions": ["reference codec is faithful", "sink connections accept every write"],
     "jobs": [
         {"pkg": MUX, "run": "^TestVerif_C13_Scenarios$", "checks": {"quick": 1500, "thorough": 150000}, "shards": {"thorough": 16}, "timeout": {"quick": 300}},
@@ -157,7 +157,7 @@ CHECKS["C20"] = {
     "technique": "rapid-generated option presence masks and values rendered both as JSON file and as key=value; string (with the \\= escapes of plugin hosts); oracle = table transcribed from README.md + cross-syntax equality; random strings for the no-crash part",
     "level_text": "Each generated configuration is parsed through both front ends (results must be equal) and processed; every documented option (NumConn<=0, KeepAlive seconds, StreamTimeout default, Transport/BrowserSig selection observed through the transport actually created, CDN url, AlternativeNames filtering, encryption names) is compared with an independent transcription of the README; incomplete/invalid configurations must yield an error, arbitrary strings must not panic. BrowserSig is checked in effect on every connection attempt of sessions set up under connection faults (each ClientHello must have the shape of a fresh hello of the configured browser; a failed chrome attempt may be retried as firefox, as the client documents). StreamTimeout is also checked in effect on the virtual clock: the value parsed from either syntax is handed to RouteTCP over a test network; a proxy connection whose first data comes before the limit must stay usable in both directions at any later time (up to 5x the period), one that stays silent longer must be closed.",
     "level_note": "The README transcription in harness/internal__client/c20_test.go (c20Table) is the trusted oracle; values containing ';', '\"' or '\\\\' are outside the option-string domain (the front end has no escaping for them once unescaped) and are not generated.",
-    "rule": "rapid draws presence (p=0.4..0.95 per option) and representative values for the 19 options incl. NumConn in {-7,-1,0,1,2,4,8}, KeepAlive in {-5,0,1,15,30,3600}, mixed-case names, base64 keys with '=' padding, empty alternative names; every case is non-trivial (both syntaxes + processing); distinct = distinct (presence mask, escaping) pairs.",
+    "rule": "rapid draws presence (p=0.4..0.95 per option) and representative values for the 19 options incl. NumConn in {-7,-1,0,1,2,4,8}, KeepAlive in {-5,0,1,15,30,3600}, mixed-case names, base64 keys with '=' padding, empty alternative names; every case is non-trivial (both syntaxes + processing); distinct = distinct (presence mask, escaping) pairs. ServerNames: layer-3 scenarios with ServerName from {random, RANDOM, rAnDoM, www.bing.com, a.example.org, randomised.example} and NumConn 0..6; non-trivial = random name over >=3 connections.",
     "assumptions": ["README.md client section is the specification"],
     "jobs": [
         {"pkg": CLIENT, "run": "^TestVerif_C20_Config$", "checks": {"quick": 6000, "thorough": 600000}, "shards": {"thorough": 16}},
@@ -188,7 +188,7 @@ CHECKS["C05"] = {
     "technique": "exhaustive enumeration of every single and every pair of cut positions for short exchanges + rapid-generated long exchanges with random segmentation/coalescing and generated admission orders of concurrent writers' underlying writes (ticketed network, synctest bubble); list model oracle; oversize records crafted on the raw connection",
     "level_text": "common.TLSConn and common.WebSocketConn (obtained through a real gorilla Upgrade, both directions) are driven over a network that delivers exactly the generated segments; every Read must return exactly the next whole message of some writer, per-writer order preserved, nothing lost; the order in which concurrent writers' underlying Write calls reach the wire is a generated permutation, so a split header/body write interleaves deterministically; records declaring more than the reader's buffer must yield an error.",
     "level_note": "WebSocket concurrent-writer cases run with free-running goroutines inside the bubble (a goroutine parked while holding the connection's write mutex cannot be scheduled deterministically under synctest).",
-    "rule": "Cuts: 6 short exchanges (<=3 messages of 0..130 bytes) x {TLS, WS client->server, WS server->client} x every pair 1<=a<=b<total of cut positions (enumerated). Sampled: rapid-drawn 1..8 writers x 1..6 messages of length 0..16640 (and >16640 for refused writes), <=12 cyclic segment sizes incl. 0=everything, admission schedule of <=40 entries. Oversize: declared length buffer+{1,2,100,45055}. Non-trivial = a message arrived in >=2 segments or >=2 messages arrived in one segment; distinct = distinct (exchange, cut pair) resp. scenarios.",
+    "rule": "Cuts: 6 short exchanges (<=3 messages of 0..130 bytes) x {TLS, WS client->server, WS server->client} x every pair 1<=a<=b<total of cut positions (enumerated). Sampled: rapid-drawn 1..8 writers x 1..6 messages of length 0..16640 (and >16640 for refused writes), <=12 cyclic segment sizes incl. 0=everything, admission schedule of <=40 entries. Oversize: declared length buffer+{1,2,100,45055}. Non-trivial = a message arrived in >=2 segments or >=2 messages arrived in one segment; distinct = distinct (exchange, cut pair) resp. scenarios. HandshakeThenRecords: 1..3 proxied connections through real client and server code (direct and CDN transport, NumConn 0..3); per link 1..14 exact leading segments from {1,2,4,5,6,11,33,60,97,127,128,129,133,134,160,200,333,517,600} bytes in either direction, then free-running segmentation; oracle = byte-exact delivery end to end; every case non-trivial.",
     "assumptions": ["gorilla/websocket framing is correct"],
     "jobs": [
         {"pkg": COMMON, "run": "^TestVerif_C05_Cuts$", "timeout": {"quick": 600}},
@@ -229,7 +229,7 @@ CHECKS["C08"] = {
     "technique": "rapid-generated presentation histories (new / verbatim replay / key-less altered copy / N concurrent presentations / clock advance) against one server State whose replay-cache cleaner runs on the synctest virtual clock; history invariant: at most one acceptance per sealed identity block",
     "level_text": "Genuine first packets are captured from the real client transports (direct ClientHello for three browser signatures, WebSocket GET through a TLS shim); histories place replays and altered copies (top bit of the ephemeral key, other unauthenticated bytes) at generated times, in particular just before and after the 12 h clean-ups while the packet's timestamp is still inside the 180 s window; any second acceptance is a violation.",
     "level_note": "The set of key-less alterations is a fixed list (bit 255 of the ephemeral public key, a cipher-suite byte / extra HTTP header, the server name / request path); goroutine schedules of concurrent presentations are the runtime's.",
-    "rule": "rapid draws 2..30 ops; advances from 1 s..179 s, {181 s, 359 s, 361 s, 1 h, 12 h} and starts 1..170 s before a multiple of 12 h; non-trivial = a replay presented after >=1 cleaner run while the timestamp is still in the window, or an altered copy presented inside the window; distinct = distinct scenarios.",
+    "rule": "rapid draws 2..30 ops; advances from 1 s..179 s, {181 s, 359 s, 361 s, 1 h, 12 h} and starts 1..170 s before a multiple of 12 h; non-trivial = a replay presented after >=1 cleaner run while the timestamp is still in the window, or an altered copy presented inside the window; distinct = distinct scenarios. flood ops: {50, 3000, 40000, 70000, 140000, 300000} other first packets (the first 2000 through AuthFirstPacket).",
     "assumptions": ["X25519 public keys are equivalent up to bit 255 (RFC 7748)"],
     "jobs": [
         {"pkg": SERVER, "run": "^TestVerif_C08_Replay$", "checks": {"quick": 800, "thorough": 100000}, "shards": {"thorough": 16}, "timeout": {"quick": 600}},
